@@ -338,6 +338,28 @@ func RunProperty(args []string) int {
 	}
 	wg.Wait()
 	var lemmaRes []*UnitResult
+	// fold axioms relied on by any unit are proved here, once each
+	type foldUse struct {
+		name string
+		cf   *ContractFile
+		fm   FloatMode
+	}
+	folds := map[string]foldUse{}
+	for _, r := range results {
+		if r != nil && r.Unit != nil && r.Unit.W != nil {
+			for k, cf := range r.Unit.FoldsUsed {
+				folds[fmt.Sprintf("%s@%d", k, int(r.Unit.W.FM))] = foldUse{k, cf, r.Unit.W.FM}
+			}
+		}
+	}
+	var foldNames []string
+	for k := range folds {
+		foldNames = append(foldNames, k)
+	}
+	sort.Strings(foldNames)
+	for _, k := range foldNames {
+		lemmaRes = append(lemmaRes, v.ProveFoldLemma(folds[k].name, folds[k].cf, folds[k].fm, so))
+	}
 
 	// collect
 	var records []oblRecord
